@@ -165,11 +165,18 @@ def gen_route(rng, net, canonical=False):
                     perm = list(range(len(cur[t])))
                     rng.shuffle(perm)
                     tr = {"op": "transpose", "t": t, "perm": perm}
-                    if rng.random() < 0.25:
+                    r_ = rng.random()
+                    if r_ < 0.25:
                         # the same permutation with some axes counted from the end
                         tr["neg"] = [bool(rng.random() < 0.5) for _ in perm]
+                    elif r_ < 0.45:
+                        # the two-step spelling: signs first, then the data
+                        tr["twostep"] = True
                     out.append(tr)
                     cur[t] = [cur[t][p] for p in perm]
+                if rng.random() < 0.12:
+                    # a dummy size-one leg put in and taken out again
+                    out.append({"op": "dummy", "t": t, "axis": rng.randrange(len(cur[t]) + 1)})
                 if rng.random() < 0.3:
                     out.append({"op": "flush", "t": t})
             la, lb = cur[a], cur[b]
@@ -233,8 +240,20 @@ def run_route(values, legs, decisions, stats=None, audit_cb=None, derived=None):
                 perm_arg = tuple(p - nd_ if ng else p for p, ng in zip(perm_arg, d["neg"]))
                 if stats is not None:
                     stats["route.transpose_negative_axes"] += 1
-            cur[t] = cur[t].transpose(perm_arg)
+            if d.get("twostep") and isinstance(cur[t], sr.FermionicArray):
+                cur[t] = cur[t].phase_transpose(perm_arg).transpose(perm_arg, phase=False)
+                if stats is not None:
+                    stats["route.transpose_two_step"] += 1
+            else:
+                cur[t] = cur[t].transpose(perm_arg)
             lg[t] = [lg[t][p] for p in d["perm"]]
+        elif op == "dummy":
+            t = d["t"]
+            if t in cur and isinstance(cur[t], sr.AbelianArray) and cur[t].ndim >= 1:
+                k_ = min(d["axis"], cur[t].ndim)
+                cur[t] = cur[t].expand_dims(k_).squeeze(k_)
+                if stats is not None:
+                    stats["route.dummy_leg"] += 1
         elif op == "flush":
             t = d["t"]
             if t in cur and isinstance(cur[t], sr.FermionicArray):
